@@ -17,7 +17,7 @@ namespace Ledger.Driver.E2e
 open Lean Ledger.Base Ledger.Core Ledger.Ctrl Ledger.Driver Ledger.Driver.Ctrl
 
 /-- One comparison of the controller model with a real run (`OpOut` shape) from a state. -/
-def compareRun (strict : Bool) (opIn real : Json) (f : Option Fault) (cf : Bool) (st : State) (realBefore : Tables)
+def compareRun (strict : Bool) (opIn real : Json) (f : Faults) (cf : Bool) (st : State) (realBefore : Tables)
     (opNo : Nat) (label : String) : Except String (Option Mismatch) := do
   let op ← opOfJson opIn real
   let o := forgeLog strict op f cf st
@@ -67,7 +67,7 @@ def handleSqlFault : Handler := fun inp out => do
   let mut mismatch := fs.mismatch
   let mut fails : List String := []
   let mut tags : List String := ["op:" ++ opTag opIn ++ (if dry then "/dry" else "")]
-  if mismatch.isNone then mismatch ← compareRun strict opIn base none false fs.state fs.real pre.length "base"
+  if mismatch.isNone then mismatch ← compareRun strict opIn base [] false fs.state fs.real pre.length "base"
   let baseResp ← field base "resp"
   let baseErr := if optStrField baseResp "panic" ≠ "" then "panic" else optStrField baseResp "err"
   let baseHit := boolFieldD baseResp "hit"
@@ -126,13 +126,13 @@ def handleSqlFault : Handler := fun inp out => do
     -- the controller model with the fault at the store call the statement belongs to
     let ci ← natField r "hitCallIdx"
     if mismatch.isNone then
-      if !didFire then mismatch ← compareRun strict opIn real none false fs.state fs.real pre.length label
+      if !didFire then mismatch ← compareRun strict opIn real [] false fs.state fs.real pre.length label
       else if ci > 0 && fk = "error" then
-        mismatch ← compareRun strict opIn real (some { at_ := ci, kind := .error }) false fs.state fs.real pre.length label
+        mismatch ← compareRun strict opIn real [{ at_ := ci, kind := .error }] false fs.state fs.real pre.length label
       else if ci > 0 && fk = "deadlock" then
-        mismatch ← compareRun strict opIn real (some { at_ := ci, kind := .deadlock }) false fs.state fs.real pre.length label
+        mismatch ← compareRun strict opIn real [{ at_ := ci, kind := .deadlock }] false fs.state fs.real pre.length label
       else if fk = "conn" && hitK = "commit" then
-        mismatch ← compareRun strict opIn real none true fs.state fs.real pre.length label
+        mismatch ← compareRun strict opIn real [] true fs.state fs.real pre.length label
     let _ := at_
     tags := tags ++ [s!"{fk}@{if !didFire then "-" else if hitK = "begin" || hitK = "commit" || hitK = "rollback" then hitK else hitCall}:" ++
       (if !didFire then "not-reached" else if rErr = "" then (if rHit then "hit" else "ok") else rErr)]
